@@ -389,6 +389,11 @@ func genC36(tier string, seed uint64, idx int) *simkit.Plan {
 		p.SetC("noupd", 1) // no overwrites of existing entries, hence no update events
 	}
 	p.SetCS("target", []string{"/backup", "/backup", "/b", "/t", "/bk/deep/er"}[rng.Intn(5)])
+	if (idx/3)%3 == 1 {
+		// files carry real chunk data on replicated stub volume servers; the local sinks copy it
+		p.SetC("chunks", 1)
+		p.SetC("replicas", int64(idx/9)) // 2 or 3 replica locations per volume
+	}
 	inside := []string{"/w/a", "/w/a/b", "/w/c", "/w/a/b/d", "/w/e"}
 	outside := []string{"/o", "/o/a", "/o/a/b"}
 	sibling := []string{"/w2", "/w2/a", "/w2/a/b", "/wx"}
